@@ -182,5 +182,658 @@ theorem optMatch_le (g : Grammar) {inp : Input} (alts : List Alt) (star : Bool) 
     · simp only [hs, Bool.false_eq_true, ↓reduceIte] at h
       exact optMatchOnce_le g alts p q h
 
+/-! ### Part 1: progress -/
+
+section prog
+variable (g : Grammar) (inp : Input) (N : List String)
+
+/-- a successful run moves the position forward, stays inside the input, and stays put only
+    if the expression is nullable -/
+def Prog (rec : Sem0) : Prop :=
+  ∀ e s s' ps, s.pos ≤ inp.size → rec e s = .ok s' ps →
+    s.pos ≤ s'.pos ∧ s'.pos ≤ inp.size ∧ (s'.pos = s.pos → nullable N e = true)
+
+/-- `N` is closed: a rule with a nullable body is in `N` -/
+def NClosed : Prop := ∀ r ∈ g.rules, nullable N r.body = true → N.contains r.name = true
+
+theorem nClosed_of_check (h : nullClosed g N = true) : NClosed g N := by
+  intro r hr hn
+  simp only [nullClosed, List.all_eq_true, Bool.or_eq_true, Bool.not_eq_true'] at h
+  rcases h r hr with h' | h'
+  · rw [hn] at h'; cases h'
+  · exact h'
+
+theorem lookup_mem {n : String} {r : Rule} (h : g.lookup n = some r) : r ∈ g.rules :=
+  List.mem_of_find?_eq_some h
+
+theorem lookup_name {n : String} {r : Rule} (h : g.lookup n = some r) : r.name = n := by
+  have := List.find?_some h
+  simpa using this
+
+theorem fusedSkip_lookup {r : Rule} (h : g.fusedSkip = some r) : g.lookup "SKIP" = some r := by
+  unfold Grammar.fusedSkip at h
+  cases hl : g.lookup "SKIP" with
+  | none => rw [hl] at h; cases h
+  | some q =>
+    rw [hl] at h
+    simp only [] at h
+    split at h
+    · cases h; rfl
+    · cases h
+
+variable {g inp N}
+
+theorem ruleWrap_pos {name : String} {mod : Nat} {s s1 s' : S0} {ps1 ps : List Pair}
+    (h : L0.ruleWrap name mod s s1 ps1 = .ok s' ps) : s'.pos = s1.pos := by
+  unfold L0.ruleWrap at h
+  by_cases hS : hasBit mod SILENT = true
+  · simp only [hS, ↓reduceIte, R0.ok.injEq] at h; rw [← h.1]
+  · simp only [hS, Bool.false_eq_true, ↓reduceIte, R0.ok.injEq] at h; rw [← h.1]
+
+theorem ruleApply_prog {rec : Sem0} (h : Prog inp N rec) {name : String} {mod : Nat} {body : Expr}
+    {s s' : S0} {ps : List Pair} (hs : s.pos ≤ inp.size)
+    (hr : L0.ruleApply rec name mod body s = .ok s' ps) :
+    s.pos ≤ s'.pos ∧ s'.pos ≤ inp.size ∧ (s'.pos = s.pos → nullable N body = true) := by
+  unfold L0.ruleApply at hr
+  cases hb : rec body { s with atomic := L0.ruleAtomic name mod s.atomic } with
+  | ok s1 ps1 =>
+    rw [hb] at hr
+    have hp := ruleWrap_pos hr
+    have := h body { s with atomic := L0.ruleAtomic name mod s.atomic } s1 ps1 hs hb
+    rw [hp]; exact this
+  | fail => rw [hb] at hr; cases hr
+  | oof => rw [hb] at hr; cases hr
+  | stuck => rw [hb] at hr; cases hr
+
+theorem callRule_prog {rec : Sem0} (hN : NClosed g N) (h : Prog inp N rec) {name : String}
+    {s s' : S0} {ps : List Pair} (hs : s.pos ≤ inp.size)
+    (hr : L0.callRule g rec name s = .ok s' ps) :
+    s.pos ≤ s'.pos ∧ s'.pos ≤ inp.size ∧ (s'.pos = s.pos → N.contains name = true) := by
+  unfold L0.callRule at hr
+  cases hl : g.lookup name with
+  | none => rw [hl] at hr; cases hr
+  | some r =>
+    rw [hl] at hr
+    have := ruleApply_prog h hs hr
+    refine ⟨this.1, this.2.1, fun he => ?_⟩
+    have := hN r (lookup_mem g hl) (this.2.2 he)
+    rwa [lookup_name g hl] at this
+
+theorem trySkip_prog {rec : Sem0} (h : Prog inp N rec) {ro : Option Rule} {s s' : S0}
+    {ps : List Pair} (hs : s.pos ≤ inp.size) (hr : L0.trySkip rec ro s = .matched s' ps) :
+    ∃ r, ro = some r ∧ s.pos ≤ s'.pos ∧ s'.pos ≤ inp.size ∧
+      (s'.pos = s.pos → nullable N r.body = true) := by
+  unfold L0.trySkip at hr
+  cases ro with
+  | none => cases hr
+  | some r =>
+    simp only [] at hr
+    cases ha : L0.ruleApply rec r.name r.mod r.body s with
+    | ok s1 ps1 =>
+      rw [ha] at hr
+      simp only [L0.Try0.matched.injEq] at hr
+      obtain ⟨rfl, _⟩ := hr
+      exact ⟨r, rfl, ruleApply_prog h hs ha⟩
+    | fail => rw [ha] at hr; cases hr
+    | oof => rw [ha] at hr; cases hr
+    | stuck => rw [ha] at hr; cases hr
+
+theorem skipLoop_prog {rec : Sem0} (h : Prog inp N rec) (ws cm : Option Rule) :
+    ∀ (k : Nat) (s : S0) (acc : List Pair) (s' : S0) (ps : List Pair), s.pos ≤ inp.size →
+      L0.skipLoop rec ws cm k s acc = .ok s' ps → s.pos ≤ s'.pos ∧ s'.pos ≤ inp.size := by
+  intro k
+  induction k with
+  | zero => intro s acc s' ps _ hr; cases hr
+  | succ k ih =>
+    intro s acc s' ps hs hr
+    simp only [L0.skipLoop] at hr
+    cases h1 : L0.trySkip rec ws s with
+    | matched s1 ps1 =>
+      rw [h1] at hr
+      obtain ⟨_, _, a, b, _⟩ := trySkip_prog h hs h1
+      have := ih s1 _ s' ps b hr
+      omega
+    | stop r => rw [h1] at hr; simp only [] at hr; subst hr; unfold L0.trySkip at h1; cases ws with
+      | none => cases h1
+      | some r =>
+        simp only [] at h1
+        cases ha : L0.ruleApply rec r.name r.mod r.body s with
+        | ok s1 ps1 => rw [ha] at h1; cases h1
+        | fail => rw [ha] at h1; cases h1
+        | oof => rw [ha] at h1; cases h1
+        | stuck => rw [ha] at h1; cases h1
+    | no =>
+      rw [h1] at hr
+      simp only [] at hr
+      cases h2 : L0.trySkip rec cm s with
+      | matched s1 ps1 =>
+        rw [h2] at hr
+        obtain ⟨_, _, a, b, _⟩ := trySkip_prog h hs h2
+        have := ih s1 _ s' ps b hr
+        omega
+      | stop r => rw [h2] at hr; simp only [] at hr; subst hr; unfold L0.trySkip at h2; cases cm with
+        | none => cases h2
+        | some r =>
+          simp only [] at h2
+          cases ha : L0.ruleApply rec r.name r.mod r.body s with
+          | ok s1 ps1 => rw [ha] at h2; cases h2
+          | fail => rw [ha] at h2; cases h2
+          | oof => rw [ha] at h2; cases h2
+          | stuck => rw [ha] at h2; cases h2
+      | no =>
+        rw [h2] at hr
+        simp only [R0.ok.injEq] at hr
+        obtain ⟨rfl, _⟩ := hr
+        omega
+
+theorem skip_prog {rec : Sem0} (h : Prog inp N rec) {k : Nat} {s s' : S0} {ps : List Pair}
+    (hs : s.pos ≤ inp.size) (hr : L0.skip g rec k s = .ok s' ps) :
+    s.pos ≤ s'.pos ∧ s'.pos ≤ inp.size := by
+  unfold L0.skip at hr
+  by_cases ha : s.atomic = true
+  · simp only [ha, ↓reduceIte, R0.ok.injEq] at hr; obtain ⟨rfl, _⟩ := hr; omega
+  · simp only [ha, Bool.false_eq_true, ↓reduceIte] at hr
+    cases hf : g.fusedSkip with
+    | some r =>
+      rw [hf] at hr; simp only [] at hr
+      have := ruleApply_prog h hs hr
+      exact ⟨this.1, this.2.1⟩
+    | none =>
+      rw [hf] at hr; simp only [] at hr
+      by_cases hn : ((g.lookup "WHITESPACE").isNone && (g.lookup "COMMENT").isNone) = true
+      · simp only [hn, ↓reduceIte, R0.ok.injEq] at hr; obtain ⟨rfl, _⟩ := hr; omega
+      · simp only [hn, Bool.false_eq_true, ↓reduceIte] at hr
+        exact skipLoop_prog h _ _ k s [] s' ps hs hr
+
+theorem seqL_prog {rec : Sem0} (h : Prog inp N rec) (k : Nat) :
+    ∀ (es : List Expr) (s : S0) (acc : List Pair) (s' : S0) (ps : List Pair), s.pos ≤ inp.size →
+      L0.seqL g rec k es s acc = .ok s' ps →
+      s.pos ≤ s'.pos ∧ s'.pos ≤ inp.size ∧ (s'.pos = s.pos → nullableAll N es = true) := by
+  intro es
+  induction es with
+  | nil =>
+    intro s acc s' ps hs hr
+    simp only [L0.seqL, R0.ok.injEq] at hr
+    obtain ⟨rfl, _⟩ := hr
+    exact ⟨Nat.le_refl _, hs, fun _ => by simp [nullableAll]⟩
+  | cons e rest ih =>
+    intro s acc s' ps hs hr
+    simp only [L0.seqL] at hr
+    cases he : rec e s with
+    | ok s1 ps1 =>
+      rw [he] at hr; simp only [] at hr
+      have p1 := h e s s1 ps1 hs he
+      by_cases hre : rest.isEmpty = true
+      · simp only [hre, ↓reduceIte, R0.ok.injEq] at hr
+        obtain ⟨rfl, _⟩ := hr
+        have : rest = [] := by simpa using hre
+        subst this
+        exact ⟨p1.1, p1.2.1, fun he' => by simp [nullableAll, p1.2.2 he']⟩
+      · simp only [hre, Bool.false_eq_true, ↓reduceIte] at hr
+        cases hsk : L0.skip g rec k s1 with
+        | ok s2 tps =>
+          rw [hsk] at hr; simp only [] at hr
+          have p2 := skip_prog h p1.2.1 hsk
+          have p3 := ih s2 _ s' ps p2.2 hr
+          refine ⟨by omega, p3.2.1, fun he' => ?_⟩
+          have e1 : s1.pos = s.pos := by omega
+          have e2 : s'.pos = s2.pos := by omega
+          simp [nullableAll, p1.2.2 e1, p3.2.2 e2]
+        | fail =>
+          rw [hsk] at hr; simp only [] at hr
+          have p3 := ih s1 _ s' ps p1.2.1 hr
+          refine ⟨by omega, p3.2.1, fun he' => ?_⟩
+          have e1 : s1.pos = s.pos := by omega
+          have e2 : s'.pos = s1.pos := by omega
+          simp [nullableAll, p1.2.2 e1, p3.2.2 e2]
+        | oof => rw [hsk] at hr; cases hr
+        | stuck => rw [hsk] at hr; cases hr
+    | fail => rw [he] at hr; cases hr
+    | oof => rw [he] at hr; cases hr
+    | stuck => rw [he] at hr; cases hr
+
+theorem choiceL_prog {rec : Sem0} (h : Prog inp N rec) :
+    ∀ (es : List Expr) (s : S0) (s' : S0) (ps : List Pair), s.pos ≤ inp.size →
+      L0.choiceL rec es s = .ok s' ps →
+      s.pos ≤ s'.pos ∧ s'.pos ≤ inp.size ∧ (s'.pos = s.pos → nullableAny N es = true) := by
+  intro es
+  induction es with
+  | nil => intro s s' ps _ hr; cases hr
+  | cons e rest ih =>
+    intro s s' ps hs hr
+    simp only [L0.choiceL] at hr
+    cases he : rec e s with
+    | ok s1 ps1 =>
+      rw [he] at hr; simp only [R0.ok.injEq] at hr
+      obtain ⟨rfl, _⟩ := hr
+      have p1 := h e s s1 ps1 hs he
+      exact ⟨p1.1, p1.2.1, fun he' => by simp [nullableAny, p1.2.2 he']⟩
+    | fail =>
+      rw [he] at hr; simp only [] at hr
+      have p := ih s s' ps hs hr
+      exact ⟨p.1, p.2.1, fun he' => by simp [nullableAny, p.2.2 he']⟩
+    | oof => rw [he] at hr; cases hr
+    | stuck => rw [he] at hr; cases hr
+
+theorem repLoop_prog {rec : Sem0} (h : Prog inp N rec) (e : Expr) (kk : Nat) :
+    ∀ (k : Nat) (first : Bool) (s : S0) (acc : List Pair) (s' : S0) (ps : List Pair),
+      s.pos ≤ inp.size → L0.repLoop g rec e k kk first s acc = .ok s' ps →
+      s.pos ≤ s'.pos ∧ s'.pos ≤ inp.size := by
+  intro k
+  induction k with
+  | zero => intro first s acc s' ps _ hr; cases hr
+  | succ k ih =>
+    intro first s acc s' ps hs hr
+    simp only [L0.repLoop] at hr
+    have hA : ∀ s1 tps, (if first = true then R0.ok s [] else L0.skip g rec kk s) = .ok s1 tps →
+        s.pos ≤ s1.pos ∧ s1.pos ≤ inp.size := by
+      intro s1 tps ha
+      by_cases hf : first = true
+      · simp only [hf, ↓reduceIte, R0.ok.injEq] at ha; obtain ⟨rfl, _⟩ := ha; omega
+      · simp only [hf, Bool.false_eq_true, ↓reduceIte] at ha; exact skip_prog h hs ha
+    cases ha : (if first = true then R0.ok s [] else L0.skip g rec kk s) with
+    | ok s1 tps =>
+      rw [ha] at hr; simp only [] at hr
+      have p1 := hA s1 tps ha
+      cases he : rec e s1 with
+      | ok s2 ps2 =>
+        rw [he] at hr; simp only [] at hr
+        have p2 := h e s1 s2 ps2 p1.2 he
+        have p3 := ih false s2 _ s' ps p2.2.1 hr
+        omega
+      | fail => rw [he] at hr; simp only [R0.ok.injEq] at hr; obtain ⟨rfl, _⟩ := hr; omega
+      | oof => rw [he] at hr; cases hr
+      | stuck => rw [he] at hr; cases hr
+    | fail => rw [ha] at hr; simp only [R0.ok.injEq] at hr; obtain ⟨rfl, _⟩ := hr; omega
+    | oof => rw [ha] at hr; cases hr
+    | stuck => rw [ha] at hr; cases hr
+
+theorem nullableAll_append (a b : List Expr) :
+    nullableAll N (a ++ b) = (nullableAll N a && nullableAll N b) := by
+  induction a with
+  | nil => simp [nullableAll]
+  | cons x xs ih => simp [nullableAll, ih, Bool.and_assoc]
+
+theorem nullableAll_replicate {n : Nat} {e : Expr} (h : nullableAll N (List.replicate n e) = true) :
+    n = 0 ∨ nullable N e = true := by
+  cases n with
+  | zero => exact Or.inl rfl
+  | succ n =>
+    simp only [List.replicate_succ, nullableAll, Bool.and_eq_true] at h
+    exact Or.inr h.1
+
+theorem step_prog {rec : Sem0} (hN : NClosed g N) (k : Nat) (h : Prog inp N rec) :
+    Prog inp N (L0.step g inp k rec) := by
+  intro e s s' ps hs hr
+  cases e with
+  | str x =>
+    simp only [L0.step] at hr
+    by_cases hm : startsWithAt inp x s.pos = true
+    · simp only [hm, ↓reduceIte, R0.ok.injEq] at hr
+      obtain ⟨rfl, _⟩ := hr
+      have := startsWithAt_le x s.pos hm
+      refine ⟨by simp [L0.adv], by simp [L0.adv]; omega, fun he => ?_⟩
+      simp only [L0.adv] at he
+      have : x.length = 0 := by omega
+      simp [nullable, List.length_eq_zero_iff.1 this]
+    · simp only [hm, Bool.false_eq_true, ↓reduceIte] at hr; cases hr
+  | ci x =>
+    simp only [L0.step] at hr
+    by_cases hm : startsWithAtCI inp x s.pos = true
+    · simp only [hm, ↓reduceIte, R0.ok.injEq] at hr
+      obtain ⟨rfl, _⟩ := hr
+      have := startsWithAtCI_le x s.pos hm
+      refine ⟨by simp [L0.adv], by simp [L0.adv]; omega, fun he => ?_⟩
+      simp only [L0.adv] at he
+      have : x.length = 0 := by omega
+      simp [nullable, List.length_eq_zero_iff.1 this]
+    · simp only [hm, Bool.false_eq_true, ↓reduceIte] at hr; cases hr
+  | range a b =>
+    simp only [L0.step] at hr
+    cases hg : inp[s.pos]? with
+    | none => rw [hg] at hr; cases hr
+    | some c =>
+      rw [hg] at hr; simp only [] at hr
+      have := getElem?_lt hg
+      by_cases hm : (decide (a ≤ c) && decide (c ≤ b)) = true
+      · simp only [hm, ↓reduceIte, R0.ok.injEq] at hr
+        obtain ⟨rfl, _⟩ := hr
+        refine ⟨by simp [L0.adv], by simp [L0.adv]; omega, fun he => ?_⟩
+        simp only [L0.adv] at he; omega
+      · simp only [hm, Bool.false_eq_true, ↓reduceIte] at hr; cases hr
+  | ident name tag =>
+    simp only [L0.step] at hr
+    have := callRule_prog hN h hs hr
+    exact ⟨this.1, this.2.1, fun he => by simpa [nullable] using this.2.2 he⟩
+  | rule name mod sm body =>
+    simp only [L0.step] at hr
+    have := ruleApply_prog h hs hr
+    exact ⟨this.1, this.2.1, fun he => by simpa [nullable] using this.2.2 he⟩
+  | seq es =>
+    simp only [L0.step] at hr
+    have := seqL_prog h k es s [] s' ps hs hr
+    exact ⟨this.1, this.2.1, fun he => by simpa [nullable] using this.2.2 he⟩
+  | choice es =>
+    simp only [L0.step] at hr
+    have := choiceL_prog h es s s' ps hs hr
+    exact ⟨this.1, this.2.1, fun he => by simpa [nullable] using this.2.2 he⟩
+  | opt e =>
+    simp only [L0.step] at hr
+    cases he : rec e s with
+    | ok s1 ps1 =>
+      rw [he] at hr; simp only [R0.ok.injEq] at hr; obtain ⟨rfl, _⟩ := hr
+      have := h e s s1 ps1 hs he
+      exact ⟨this.1, this.2.1, fun _ => by simp [nullable]⟩
+    | fail =>
+      rw [he] at hr; simp only [R0.ok.injEq] at hr; obtain ⟨rfl, _⟩ := hr
+      exact ⟨Nat.le_refl _, hs, fun _ => by simp [nullable]⟩
+    | oof => rw [he] at hr; cases hr
+    | stuck => rw [he] at hr; cases hr
+  | rep e =>
+    simp only [L0.step] at hr
+    have := repLoop_prog h e k k true s [] s' ps hs hr
+    exact ⟨this.1, this.2, fun _ => by simp [nullable]⟩
+  | rep1 e =>
+    simp only [L0.step] at hr
+    have := seqL_prog h k _ s [] s' ps hs hr
+    refine ⟨this.1, this.2.1, fun he => ?_⟩
+    have := this.2.2 he
+    simp only [nullableAll, Bool.and_eq_true] at this
+    simpa [nullable] using this.1
+  | repExact e n =>
+    simp only [L0.step] at hr
+    have := seqL_prog h k _ s [] s' ps hs hr
+    refine ⟨this.1, this.2.1, fun he => ?_⟩
+    rcases nullableAll_replicate (this.2.2 he) with h0 | h0 <;> simp [nullable, h0]
+  | repMin e n =>
+    simp only [L0.step] at hr
+    have := seqL_prog h k _ s [] s' ps hs hr
+    refine ⟨this.1, this.2.1, fun he => ?_⟩
+    have := this.2.2 he
+    rw [nullableAll_append, Bool.and_eq_true] at this
+    rcases nullableAll_replicate this.1 with h0 | h0 <;> simp [nullable, h0]
+  | repMax e n =>
+    simp only [L0.step] at hr
+    have := seqL_prog h k _ s [] s' ps hs hr
+    exact ⟨this.1, this.2.1, fun _ => by simp [nullable]⟩
+  | repMinMax e m n =>
+    simp only [L0.step] at hr
+    have := seqL_prog h k _ s [] s' ps hs hr
+    refine ⟨this.1, this.2.1, fun he => ?_⟩
+    have := this.2.2 he
+    rw [nullableAll_append, Bool.and_eq_true] at this
+    rcases nullableAll_replicate this.1 with h0 | h0 <;> simp [nullable, h0]
+  | andP e =>
+    simp only [L0.step] at hr
+    cases he : rec e s with
+    | ok s1 ps1 =>
+      rw [he] at hr; simp only [R0.ok.injEq] at hr; obtain ⟨rfl, _⟩ := hr
+      exact ⟨Nat.le_refl _, hs, fun _ => by simp [nullable]⟩
+    | fail => rw [he] at hr; cases hr
+    | oof => rw [he] at hr; cases hr
+    | stuck => rw [he] at hr; cases hr
+  | notP e =>
+    simp only [L0.step] at hr
+    cases he : rec e s with
+    | ok s1 ps1 => rw [he] at hr; cases hr
+    | fail =>
+      rw [he] at hr; simp only [R0.ok.injEq] at hr; obtain ⟨rfl, _⟩ := hr
+      exact ⟨Nat.le_refl _, hs, fun _ => by simp [nullable]⟩
+    | oof => rw [he] at hr; cases hr
+    | stuck => rw [he] at hr; cases hr
+  | group e tag =>
+    simp only [L0.step] at hr
+    have := h e s s' ps hs hr
+    exact ⟨this.1, this.2.1, fun he => by simpa [nullable] using this.2.2 he⟩
+  | push e =>
+    simp only [L0.step] at hr
+    cases he : rec e s with
+    | ok s1 ps1 =>
+      rw [he] at hr; simp only [R0.ok.injEq] at hr; obtain ⟨rfl, _⟩ := hr
+      have := h e s s1 ps1 hs he
+      exact ⟨this.1, this.2.1, fun he' => by simpa [nullable] using this.2.2 he'⟩
+    | fail => rw [he] at hr; cases hr
+    | oof => rw [he] at hr; cases hr
+    | stuck => rw [he] at hr; cases hr
+  | pushLit x =>
+    simp only [L0.step, R0.ok.injEq] at hr; obtain ⟨rfl, _⟩ := hr
+    exact ⟨Nat.le_refl _, hs, fun _ => by simp [nullable]⟩
+  | peek =>
+    simp only [L0.step] at hr
+    cases hst : s.stk with
+    | nil => rw [hst] at hr; cases hr
+    | cons t r =>
+      rw [hst] at hr; simp only [] at hr
+      by_cases hm : startsWithAt inp t s.pos = true
+      · simp only [hm, ↓reduceIte, R0.ok.injEq] at hr
+        obtain ⟨rfl, _⟩ := hr
+        have := startsWithAt_le t s.pos hm
+        exact ⟨by simp [L0.adv], by simp [L0.adv]; omega, fun _ => by simp [nullable]⟩
+      · simp only [hm, Bool.false_eq_true, ↓reduceIte] at hr; cases hr
+  | pop =>
+    simp only [L0.step] at hr
+    cases hst : s.stk with
+    | nil => rw [hst] at hr; cases hr
+    | cons t r =>
+      rw [hst] at hr; simp only [] at hr
+      by_cases hm : startsWithAt inp t s.pos = true
+      · simp only [hm, ↓reduceIte, R0.ok.injEq] at hr
+        obtain ⟨rfl, _⟩ := hr
+        have := startsWithAt_le t s.pos hm
+        exact ⟨by simp [L0.adv], by simp [L0.adv]; omega, fun _ => by simp [nullable]⟩
+      · simp only [hm, Bool.false_eq_true, ↓reduceIte] at hr; cases hr
+  | drop =>
+    simp only [L0.step] at hr
+    cases hst : s.stk with
+    | nil => rw [hst] at hr; cases hr
+    | cons t r =>
+      rw [hst] at hr; simp only [R0.ok.injEq] at hr; obtain ⟨rfl, _⟩ := hr
+      exact ⟨Nat.le_refl _, hs, fun _ => by simp [nullable]⟩
+  | peekAll =>
+    simp only [L0.step, L0.matchLits] at hr
+    cases hm : L1.matchAll inp s.stk s.pos with
+    | none => rw [hm] at hr; cases hr
+    | some q =>
+      rw [hm] at hr; simp only [R0.ok.injEq] at hr; obtain ⟨rfl, _⟩ := hr
+      have := matchAll_le _ _ _ hs hm
+      exact ⟨this.1, this.2, fun _ => by simp [nullable]⟩
+  | popAll =>
+    simp only [L0.step, L0.matchLits] at hr
+    cases hm : L1.matchAll inp s.stk s.pos with
+    | none => rw [hm] at hr; cases hr
+    | some q =>
+      rw [hm] at hr; simp only [R0.ok.injEq] at hr; obtain ⟨rfl, _⟩ := hr
+      have := matchAll_le _ _ _ hs hm
+      exact ⟨this.1, this.2, fun _ => by simp [nullable]⟩
+  | peekSlice a b =>
+    simp only [L0.step, L0.matchLits] at hr
+    cases hm : L1.matchAll inp (pySlice s.stk.reverse a b) s.pos with
+    | none => rw [hm] at hr; cases hr
+    | some q =>
+      rw [hm] at hr; simp only [R0.ok.injEq] at hr; obtain ⟨rfl, _⟩ := hr
+      have := matchAll_le _ _ _ hs hm
+      exact ⟨this.1, this.2, fun _ => by simp [nullable]⟩
+  | anyB =>
+    simp only [L0.step] at hr
+    by_cases hm : s.pos < inp.size
+    · simp only [hm, ↓reduceIte, R0.ok.injEq] at hr
+      obtain ⟨rfl, _⟩ := hr
+      refine ⟨by simp [L0.adv], by simp [L0.adv]; omega, fun he => ?_⟩
+      simp only [L0.adv] at he; omega
+    · simp only [hm, ↓reduceIte] at hr; cases hr
+  | soiB =>
+    simp only [L0.step] at hr
+    by_cases hm : (s.pos == 0) = true
+    · simp only [hm, ↓reduceIte, R0.ok.injEq] at hr; obtain ⟨rfl, _⟩ := hr
+      exact ⟨Nat.le_refl _, hs, fun _ => by simp [nullable]⟩
+    · simp only [hm, Bool.false_eq_true, ↓reduceIte] at hr; cases hr
+  | eoiB =>
+    simp only [L0.step] at hr
+    by_cases hm : (s.pos == inp.size) = true
+    · simp only [hm, ↓reduceIte, R0.ok.injEq] at hr; obtain ⟨rfl, _⟩ := hr
+      exact ⟨Nat.le_refl _, hs, fun _ => by simp [nullable]⟩
+    · simp only [hm, Bool.false_eq_true, ↓reduceIte] at hr; cases hr
+  | uprop n =>
+    simp only [L0.step] at hr
+    cases hg : inp[s.pos]? with
+    | none => rw [hg] at hr; cases hr
+    | some c =>
+      rw [hg] at hr; simp only [] at hr
+      have := getElem?_lt hg
+      by_cases hm : g.uprop n c = true
+      · simp only [hm, ↓reduceIte, R0.ok.injEq] at hr
+        obtain ⟨rfl, _⟩ := hr
+        refine ⟨by simp [L0.adv], by simp [L0.adv]; omega, fun he => ?_⟩
+        simp only [L0.adv] at he; omega
+      · simp only [hm, Bool.false_eq_true, ↓reduceIte] at hr; cases hr
+  | skipUntil subs =>
+    simp only [L0.step, R0.ok.injEq] at hr; obtain ⟨rfl, _⟩ := hr
+    have := skipUntilPos_le subs s.pos hs
+    exact ⟨this.1, this.2, fun _ => by simp [nullable]⟩
+  | optChoice alts star =>
+    simp only [L0.step] at hr
+    cases hm : L1.optMatch g inp alts star s.pos with
+    | none => rw [hm] at hr; cases hr
+    | some q =>
+      rw [hm] at hr; simp only [R0.ok.injEq] at hr; obtain ⟨rfl, _⟩ := hr
+      have := optMatch_le g alts star s.pos q hs hm
+      exact ⟨this.1, this.2, fun _ => by simp [nullable]⟩
+
+theorem run_prog (hN : NClosed g N) : ∀ n, Prog inp N (L0.run g inp n) := by
+  intro n
+  induction n with
+  | zero => intro e s s' ps _ hr; cases hr
+  | succ n ih => exact step_prog hN n ih
+
+end prog
+
+/-! ### Part 2: convergence -/
+
+mutual
+/-- a size under which the unrolled forms of the bounded repetitions are smaller than the node -/
+def esize : Expr → Nat
+  | .rule _ _ _ b => esize b + 1
+  | .seq es => esizeL es + 1
+  | .choice es => esizeL es + 1
+  | .opt e => esize e + 1
+  | .rep e => esize e + 1
+  | .rep1 e => esize e + 2
+  | .repExact e _ => esize e + 1
+  | .repMin e _ => esize e + 2
+  | .repMax e _ => esize e + 2
+  | .repMinMax e _ _ => esize e + 2
+  | .andP e => esize e + 1
+  | .notP e => esize e + 1
+  | .group e _ => esize e + 1
+  | .push e => esize e + 1
+  | .str _ => 1
+  | .ci _ => 1
+  | .range _ _ => 1
+  | .ident _ _ => 1
+  | .pushLit _ => 1
+  | .peek => 1
+  | .pop => 1
+  | .drop => 1
+  | .peekAll => 1
+  | .popAll => 1
+  | .peekSlice _ _ => 1
+  | .anyB => 1
+  | .soiB => 1
+  | .eoiB => 1
+  | .uprop _ => 1
+  | .skipUntil _ => 1
+  | .optChoice _ _ => 1
+def esizeL : List Expr → Nat
+  | [] => 0
+  | e :: es => esize e + esizeL es
+end
+
+theorem esize_mem {e : Expr} {es : List Expr} (h : e ∈ es) : esize e ≤ esizeL es := by
+  induction es with
+  | nil => cases h
+  | cons x xs ih =>
+    simp only [esizeL]
+    rcases List.mem_cons.1 h with rfl | h'
+    · omega
+    · have := ih h'; omega
+
+section conv
+variable (g : Grammar) (inp : Input)
+
+/-- `e` converges from `s`: some amount of fuel gives an answer -/
+def T (e : Expr) (s : S0) : Prop := ∃ n, L0.run g inp n e s ≠ .oof
+
+/-- `F (run M)` is eventually constant and not out-of-fuel -/
+def Stable (F : Nat → R0) : Prop := ∃ n x, x ≠ R0.oof ∧ ∀ M, n ≤ M → F M = x
+
+variable {g inp}
+
+theorem T.stable {e : Expr} {s : S0} (h : T g inp e s) : Stable fun M => L0.run g inp M e s := by
+  obtain ⟨n, hn⟩ := h
+  refine ⟨n, L0.run g inp n e s, hn, fun M hM => ?_⟩
+  exact L0.run_mono g inp hM e s hn
+
+theorem T.of_step {e : Expr} {s : S0} (h : Stable fun M => L0.step g inp M (L0.run g inp M) e s) :
+    T g inp e s := by
+  obtain ⟨n, x, hx, hst⟩ := h
+  refine ⟨n + 1, ?_⟩
+  show L0.step g inp n (L0.run g inp n) e s ≠ .oof
+  rw [hst n (Nat.le_refl _)]; exact hx
+
+theorem ruleWrap_ne_oof (name : String) (mod : Nat) (s s1 : S0) (ps : List Pair) :
+    L0.ruleWrap name mod s s1 ps ≠ .oof := by
+  unfold L0.ruleWrap
+  by_cases hS : hasBit mod SILENT = true <;> simp [hS]
+
+theorem ruleApply_stable {name : String} {mod : Nat} {body : Expr} {s : S0}
+    (h : T g inp body { s with atomic := L0.ruleAtomic name mod s.atomic }) :
+    Stable fun M => L0.ruleApply (L0.run g inp M) name mod body s := by
+  obtain ⟨n, x, hx, hst⟩ := h.stable
+  cases x with
+  | oof => exact absurd rfl hx
+  | ok s1 ps1 =>
+    refine ⟨n, L0.ruleWrap name mod s s1 ps1, ruleWrap_ne_oof _ _ _ _ _, fun M hM => ?_⟩
+    have := hst M hM
+    simp only [L0.ruleApply] at this ⊢
+    rw [this]
+  | fail =>
+    refine ⟨n, .fail, by simp, fun M hM => ?_⟩
+    have := hst M hM
+    simp only [L0.ruleApply] at this ⊢
+    rw [this]
+  | stuck =>
+    refine ⟨n, .stuck, by simp, fun M hM => ?_⟩
+    have := hst M hM
+    simp only [L0.ruleApply] at this ⊢
+    rw [this]
+
+/-- `trySkip` is eventually constant, and not "out of fuel" -/
+theorem trySkip_stable {ro : Option Rule} {s : S0}
+    (h : ∀ r, ro = some r → T g inp r.body { s with atomic := L0.ruleAtomic r.name r.mod s.atomic }) :
+    ∃ n t, (∀ x, t = L0.Try0.stop x → x ≠ .oof) ∧ ∀ M, n ≤ M → L0.trySkip (L0.run g inp M) ro s = t := by
+  cases ro with
+  | none => exact ⟨0, .no, by intro x hx; cases hx, fun M _ => rfl⟩
+  | some r =>
+    obtain ⟨n, x, hx, hst⟩ := ruleApply_stable (h r rfl)
+    cases x with
+    | oof => exact absurd rfl hx
+    | ok s1 ps1 =>
+      refine ⟨n, .matched s1 ps1, by intro x hx; cases hx, fun M hM => ?_⟩
+      have := hst M hM
+      simp only [L0.trySkip] at this ⊢
+      rw [this]
+    | fail =>
+      refine ⟨n, .no, by intro x hx; cases hx, fun M hM => ?_⟩
+      have := hst M hM
+      simp only [L0.trySkip] at this ⊢
+      rw [this]
+    | stuck =>
+      refine ⟨n, .stop .stuck, by intro x hx; cases hx; simp, fun M hM => ?_⟩
+      have := hst M hM
+      simp only [L0.trySkip] at this ⊢
+      rw [this]
+
+end conv
+
 end Term
 end Pest
